@@ -210,6 +210,10 @@ def worker_main(args):
                     "details": jsonable(final.details),
                     "decoded": jsonable(final.decoded),
                     "event_log_digest": final.digest,
+                    # enough to re-execute this worker's whole sequence of runs up to this one (used when
+                    # the violation depends on state that earlier runs left in the process)
+                    "history": {"base_seed": args["base_seed"], "worker": args["worker"], "index": i - 1,
+                                "oracle_unshrunk": out.oracle, "digest_unshrunk": out.digest},
                 }
                 # VERIF_OUT_DIR: self-tests against scratch copies keep their files out of /verif
                 rdir = os.path.join(os.environ.get("VERIF_OUT_DIR") or pin.VERIF_DIR, "replays")
@@ -272,7 +276,17 @@ def replay_main(args):
     cfg["hashseed"] = os.environ.get("PYTHONHASHSEED", "")
     if hasattr(mod, "setup"):
         mod.setup(cfg)
-    out = do_replay(mod, cfg, rf)
+    if args.get("with_history") or rf.get("needs_history"):
+        # the violation depends on what earlier runs of the same worker left behind in the process
+        # (a cache of the code under test, say): re-execute that worker's runs 0..index, unshrunk
+        h = rf["history"]
+        out = None
+        for j in range(h["index"] + 1):
+            if j and (j + 1) % 20 == 0 and not getattr(mod, "GC_EACH_RUN", False):
+                gc.collect()
+            out = run_tape(mod, cfg, Tape(derive_seed(h["base_seed"], pid, h["worker"], j)))
+    else:
+        out = do_replay(mod, cfg, rf)
     known = load_known(pid)
     kf = match_known(known, out.details) if out.status == "violation" else None
     print("REPLAY-RESULT " + json.dumps({
